@@ -10,6 +10,25 @@ verus! {
 
 //@extract kind=enum file=rten-shape-inference/src/sym_expr.rs name=SymExpr
 
+// ---------------------------------------------------------------- trusted std specifications
+pub open spec fn clamp_i32(x: int) -> int {
+    if x > i32::MAX { i32::MAX as int } else if x < i32::MIN { i32::MIN as int } else { x }
+}
+
+pub assume_specification [i32::saturating_add] (a: i32, b: i32) -> (r: i32)
+    ensures r as int == clamp_i32(a as int + b as int);
+
+pub assume_specification [i32::saturating_sub] (a: i32, b: i32) -> (r: i32)
+    ensures r as int == clamp_i32(a as int - b as int);
+
+/// a * b, kept opaque so that the corner products in `range` do not feed the solver's
+/// nonlinear matching (see lemma_mul_box).
+#[verifier::opaque]
+pub open spec fn smul(a: int, b: int) -> int { a * b }
+
+pub assume_specification [i32::saturating_mul] (a: i32, b: i32) -> (r: i32)
+    ensures r as int == clamp_i32(smul(a as int, b as int));
+
 // ---------------------------------------------------------------- spec (from the property)
 
 pub type Env = Map<Seq<char>, int>;
@@ -17,6 +36,7 @@ pub type Env = Map<Seq<char>, int>;
 pub open spec fn in_i32(x: int) -> bool { i32::MIN <= x <= i32::MAX }
 
 /// Rust's `/` on signed integers: truncation toward zero.
+#[verifier::opaque]
 pub open spec fn tdiv(x: int, y: int) -> int
     recommends y != 0
 {
@@ -27,6 +47,7 @@ pub open spec fn tdiv(x: int, y: int) -> int
 }
 
 /// ceil(x / y) over the rationals.
+#[verifier::opaque]
 pub open spec fn cdiv(x: int, y: int) -> int
     recommends y != 0
 {
@@ -92,6 +113,46 @@ pub broadcast proof fn lemma_mul_nonneg(x: int, y: int)
     assert(x * y >= 0) by (nonlinear_arith) requires x >= 0, y >= 0;
 }
 
+
+pub proof fn lemma_mul_mono(x: int, a: int, b: int, y: int)
+    requires a <= x <= b
+    ensures
+        y >= 0 ==> a * y <= x * y <= b * y,
+        y <= 0 ==> b * y <= x * y <= a * y,
+{
+    if y >= 0 {
+        assert(a * y <= x * y) by (nonlinear_arith) requires a <= x, y >= 0;
+        assert(x * y <= b * y) by (nonlinear_arith) requires x <= b, y >= 0;
+    }
+    if y <= 0 {
+        assert(b * y <= x * y) by (nonlinear_arith) requires x <= b, y <= 0;
+        assert(x * y <= a * y) by (nonlinear_arith) requires a <= x, y <= 0;
+    }
+}
+
+pub open spec fn min4(a: int, b: int, c: int, d: int) -> int { imin(imin(a, b), imin(c, d)) }
+pub open spec fn max4(a: int, b: int, c: int, d: int) -> int { imax(imax(a, b), imax(c, d)) }
+
+/// Interval product: extremes of x*y over a box are attained at the corners.
+pub broadcast proof fn lemma_mul_box(x: int, y: int, a: int, b: int, c: int, d: int)
+    requires a <= x <= b, c <= y <= d
+    ensures
+        #![trigger x * y, smul(a, c), smul(b, d)]
+        min4(smul(a, c), smul(a, d), smul(b, c), smul(b, d)) <= x * y
+            <= max4(smul(a, c), smul(a, d), smul(b, c), smul(b, d))
+{
+    reveal(smul);
+    lemma_mul_mono(x, a, b, y);
+    lemma_mul_mono(y, c, d, a);
+    lemma_mul_mono(y, c, d, b);
+    assert(a * y == y * a) by (nonlinear_arith);
+    assert(b * y == y * b) by (nonlinear_arith);
+    assert(c * a == a * c) by (nonlinear_arith);
+    assert(d * a == a * d) by (nonlinear_arith);
+    assert(c * b == b * c) by (nonlinear_arith);
+    assert(d * b == b * d) by (nonlinear_arith);
+}
+
 pub broadcast proof fn lemma_tdiv_bounds(x: int, y: int)
     requires y != 0
     ensures
@@ -100,6 +161,7 @@ pub broadcast proof fn lemma_tdiv_bounds(x: int, y: int)
         (x >= 0 && y > 0) ==> 0 <= tdiv(x, y) <= x,
         (x <= 0 && y > 0) ==> x <= tdiv(x, y) <= 0,
 {
+    reveal(tdiv);
     if y > 0 {
         if x >= 0 {
             assert(0 <= x / y <= x) by (nonlinear_arith) requires x >= 0, y > 0;
@@ -123,6 +185,7 @@ pub broadcast proof fn lemma_cdiv_bounds(x: int, y: int)
         x >= 0 ==> -x <= cdiv(x, y) <= x,
         x <= 0 ==> x <= cdiv(x, y) <= -x,
 {
+    reveal(cdiv);
     if y > 0 {
         if x > 0 {
             // (-x)/y is floor of a negative rational: -x <= (-x)/y <= 0  (Euclidean, y>0)
@@ -166,7 +229,7 @@ pub broadcast proof fn lemma_unfold(e: SymExpr, env: Env)
 }
 
 // ---------------------------------------------------------------- code under contract
-pub mod code {
+pub mod code_is_positive {
 use super::*;
 broadcast use {lemma_unfold, lemma_mul_nonneg, lemma_tdiv_bounds, lemma_cdiv_bounds};
 
@@ -174,13 +237,21 @@ impl SymExpr {
     //@extract kind=fn file=rten-shape-inference/src/sym_expr.rs within="impl SymExpr" name=is_positive
     //@| ensures r ==> sem_nonneg(*self), // @ob:is_positive.sound
     //@| decreases self
+}
+} // mod
 
+pub mod code_range {
+use super::*;
+// (lemma_mul_nonneg is deliberately not in scope here: together with lemma_mul_box it sends
+// Z3's nonlinear matching past the resource limit)
+broadcast use {lemma_unfold, lemma_mul_box, lemma_tdiv_bounds, lemma_cdiv_bounds};
+
+impl SymExpr {
     //@extract kind=fn file=rten-shape-inference/src/sym_expr.rs within="impl SymExpr" name=range
     //@| ensures sem_in_range(*self, r.0 as int, r.1 as int), // @ob:range.sound
     //@| decreases self
 }
-
-} // mod code
+} // mod
 
 } // verus!
 fn main() {}
